@@ -10,6 +10,7 @@
 #include "modular.h"
 #include "modular-integer.h"
 #include "chineseremainder.h"
+#include "c14_watchdog.h"
 using namespace Givaro;
 
 template <class Dom, bool RED>
@@ -38,6 +39,7 @@ static std::string run(const Integer& M, const Integer& Dm, const Integer& A, co
 int main() {
     std::string line;
     while (std::getline(std::cin, line)) {
+        c14_arm();
         std::istringstream in(line);
         std::string dom, sM, sD, sA, se; int red;
         in >> dom >> red >> sM >> sD >> sA >> se;
